@@ -72,7 +72,7 @@ theorem parseJWS_accept_fixed {sup : List String} {E : Env} {j : Jws} {vs : List
 theorem dpop_accept {sup : List String} {typ : String} {E : Env} {c : Bool} {j : Jws} {vs : List Verified}
     (h : dpopParse sup typ E c j = .accept vs) :
     ∃ s k, j.sigs = [s] ∧ vs = [{ key := k, src := .embedded 0, alg := s.alg, idx := 0, overSigningInput := true }] ∧
-      s.alg ∈ sup ∧ s.typ = typ ∧ s.jwk ≠ .absent ∧ s.jwk ≠ .priv ∧ E.embeddedKey 0 = some k ∧ E.verifies k s.alg 0 = true := by
+      s.alg ∈ sup ∧ s.typ = typ ∧ s.jwk ≠ .absent ∧ s.jwk ≠ .priv ∧ E.embeddedKey 0 = some k ∧ E.verifies k s.alg 0 = true ∧ E.fits k s.alg = true := by
   unfold dpopParse at h
   split at h; · cases h
   split at h
@@ -88,10 +88,12 @@ theorem dpop_accept {sup : List String} {typ : String} {E : Env} {c : Bool} {j :
     split at h; · cases h
     next k hk =>
     split at h; · cases h
+    next hfit =>
+    split at h; · cases h
     next hver =>
     split at h; · cases h
     injection h with h
-    exact ⟨s, k, hs, h.symm, by simpa using hsup, by simpa using htyp, hj1, hj2, hk, by simpa using hver⟩
+    exact ⟨s, k, hs, h.symm, by simpa using hsup, by simpa using htyp, hj1, hj2, hk, by simpa using hver, by simpa using hfit⟩
   · cases h
 
 theorem dagTx_accept {allowed : List String} {rej strict : Bool} {E : Env} {o fr : Bool} {j : Jws} {vs : List Verified}
